@@ -226,7 +226,7 @@ def check(prog, rep, tier):
                 rep.bad("C08.cbf-noop-exits", f"{CB}.remove_alt", f"early return with minimum vs 0 in {sorted(o0)}, vs limit in {sorted(om)}",
                         f"remove returns {nshow(rv)} without touching the cells on a path where the minimum may be something other than 0 or the limit: a present key is not removed", fr.where(p.exit[2]))
                 okn = False
-            if o0 <= {EQ} and rv != C(0) or (om <= {EQ} and not o0 <= {EQ} and rv != C(UMAX)):
+            if o0 <= {EQ} and rv not in (C(0), m) or (om <= {EQ} and not o0 <= {EQ} and rv not in (C(UMAX), m)):
                 rep.bad("C08.cbf-noop-exits", f"{CB}.remove_alt", f"no-op returns {nshow(rv)}", "the no-op exit does not report the unchanged count", fr.where(p.exit[2]))
                 okn = False
         elif stores:
